@@ -270,6 +270,13 @@ def check_one(n, gates, outs, tname, acc, c=None, net=None, ref=None, storage=No
         if not subseq or any(m not in rin for m in must):
             acc.violation(f'{tname}/inputs', case, f'result inputs {rin}, reachable {must}')
             return
+        if tname.endswith('RRGi'):
+            # the last stage asked for input removal: no input of the RESULT may be unreachable from its outputs
+            live = rnet.reach_back(rnet.outputs)
+            dead = [i for i in rin if i not in live]
+            if dead:
+                acc.violation(f'{tname}/unreachable-inputs-remain-after-trailing-input-removal', case, f'{dead}')
+                return
     else:
         if rin != net.inputs:
             acc.violation(f'{tname}/inputs', case, f'result inputs {rin} expected {net.inputs}')
